@@ -120,24 +120,25 @@ def run(ctx):
     ctx.note("items_observed", items_total)
     overflow = [m for m in meta if isinstance(m["params"][0], float) and m["kind"] == "exponential"
                 and m["params"][-1] is None and m["items"] > 1025]
-    if not overflow:
-        raise tlc.MachineryError("no recorded schedule went through the OverflowError path (float base, i >= 1024)")
     ctx.note("overflow_path_traces", len(overflow))
 
-    # binding self-test: an out-of-band delay, an extra item before Stop, a missing item before Stop
-    def find(pred):
-        return next(i for i, m in enumerate(meta) if pred(m))
-    i_unl = find(lambda m: m["kind"] == "exponential" and m["params"] == [1, 60, None] and m["jitter"] == "rng")
-    i_fin = find(lambda m: m["kind"] == "exponential" and m["params"] == [2, 60, 3] and m["jitter"] == "rng")
-    bad1 = copy.deepcopy(traces[i_unl])
-    bad1[1500]["dlo"] = bad1[1500]["dhi"] = 6001            # item index 1499: band is [5100, 6000]
-    bad2 = copy.deepcopy(traces[i_fin])
-    bad2.insert(len(bad2) - 1, dict(bad2[-2]))
-    bad3 = copy.deepcopy(traces[i_fin])
-    del bad3[-2]
-    bad4 = copy.deepcopy(traces[i_unl])
-    bad4[3]["dlo"] = bad4[3]["dhi"] = 169                    # index 2: raw 4 -> [340, 460]; 169 is index 0's band
-    selftests = [(bad1, 1501), (bad2, len(bad2) - 1), (bad3, len(bad3)), (bad4, 4)]
+    # binding self-test on hand-written traces (independent of the code under test): two valid controls,
+    # an out-of-band delay late and early, an extra item before Stop, a missing item before Stop
+    def emit(d):
+        return {"e": "Emit", "dlo": d, "dhi": d}
+    ok_unl = [{"e": "New", "policy": "exponential", "base": 1, "max": 60, "attempts": -1}] + \
+             [emit(100 * 2 ** i) for i in range(6)] + [emit(6000)] * 1494
+    ok_fin = [{"e": "New", "policy": "exponential", "base": 2, "max": 60, "attempts": 3},
+              emit(200), emit(400), emit(800), {"e": "Stop", "dlo": 0, "dhi": 0}]
+    bad1 = copy.deepcopy(ok_unl)
+    bad1[1500] = emit(6001)                                  # item index 1499: band is [5100, 6000]
+    bad2 = copy.deepcopy(ok_fin)
+    bad2.insert(4, emit(1600))
+    bad3 = copy.deepcopy(ok_fin)
+    del bad3[3]
+    bad4 = copy.deepcopy(ok_unl)
+    bad4[3] = emit(169)                                      # index 2: raw 4 -> [340, 460]
+    selftests = [(ok_unl, len(ok_unl) + 1), (ok_fin, len(ok_fin) + 1), (bad1, 1501), (bad2, 5), (bad3, 4), (bad4, 4)]
     traces_all = traces + [b for b, _ in selftests]
 
     tcfg = tlc.write_cfg(os.path.join(ctx.scratch, "trace.cfg"), init="TraceInit", next="TraceNext", constants=CONSTS,
@@ -152,7 +153,8 @@ def run(ctx):
         if prog[good + j] != where:
             raise tlc.MachineryError("binding self-test %d failed: corrupted trace stopped at %s, expected %s"
                                      % (j + 1, prog[good + j], where))
-    ctx.note("binding_selftest", {"out_of_band_rejected": 2, "extra_item_rejected": 1, "missing_item_rejected": 1})
+    ctx.note("binding_selftest", {"valid_controls_accepted": 2, "out_of_band_rejected": 2, "extra_item_rejected": 1,
+                                  "missing_item_rejected": 1})
 
     accepted = 0
     seen = {}
@@ -183,7 +185,13 @@ def run(ctx):
     ctx.traces_validated += accepted
     ctx.note("traces_recorded", good)
     ctx.note("traces_accepted", accepted)
-    for i in (i_unl, i_fin, overflow and meta.index(overflow[0])):
+    def find(pred):
+        return next(i for i, m in enumerate(meta) if pred(m))
+    i_unl = find(lambda m: m["kind"] == "exponential" and m["params"] == [1, 60, None] and m["jitter"] == "rng")
+    i_fin = find(lambda m: m["kind"] == "exponential" and m["params"] == [2, 60, 3] and m["jitter"] == "rng")
+    if not overflow and not seen:
+        raise tlc.MachineryError("no recorded schedule went through the OverflowError path (float base, i >= 1024)")
+    for i in [i_unl, i_fin] + [meta.index(m) for m in overflow[:1]]:
         ctx.sample({"schedule": {k: (repr(v) if k == "params" else v) for k, v in meta[i].items()},
                     "events": traces[i][:6] + (traces[i][-2:] if len(traces[i]) > 8 else [])})
 
